@@ -41,7 +41,6 @@ BOND_FIELDS = ["label", "btype", "stereo", "f_order"]
 # known findings (recorded in known_findings.d/C06.json); the Coq theorem excludes exactly these
 # (class, route, field) triples -- see Props/C06.v `known`.
 KNOWN_JOIN_CHARGES = "C06:Molecule:join-Molecule:charges-differ"
-KNOWN_CONCAT_SCAL = "C06:concatenate:charge-mult-not-int"
 
 
 def Zt(z):
@@ -439,8 +438,6 @@ def make_joinable(ml, rng, kname):
     else:
         o.add_atom(ap, c)
     o.append_bond(Bond(o.atoms[j], ap))
-    if rng.random() < 0.5 and o.n_atoms > 2:      # attachment point not last
-        o.sort_atoms(key=lambda a: 0 if a is ap else 1) if False else None
     return o, ap
 
 
@@ -512,17 +509,21 @@ def apply_single(ml, src, route):
     return Unit(src, thr), Unit(res, thr)
 
 
-def apply_multi(ml, rng, kname, route):
-    """Derived molecules. Returns (list of source units, VSrc, result unit)."""
+def apply_multi(ml, rng, kname, route, pre=lambda units, v: None):
+    """Derived molecules. Returns (list of source units, VSrc, result unit); `pre` is called with the
+    sources and their union object before the route runs."""
     import numpy as np
+    from molli.chem import Bond
     cls = ctor(ml, route[1]) if route[0] != "ensfromlist" else None
     if route[0] == "concat":
         srcs = [make_source(ml, rng, kname) for _ in range(route[2])]
-        res = cls.concatenate(*srcs)
         ch = np.concatenate([s.atomic_charges for s in srcs]) if kname == "Molecule" else None
         v = VSrc(kname, [a for s in srcs for a in s.atoms], [b for s in srcs for b in s.bonds],
                  np.vstack([s.coords for s in srcs]), ch, None, None, None, srcs)
-        return [Unit(s) for s in srcs], v, Unit(res)
+        units = [Unit(s) for s in srcs]
+        pre(units, v)
+        res = cls.concatenate(*srcs)
+        return units, v, Unit(res)
     if route[0] == "join":
         (s1, ap1), (s2, ap2) = make_joinable(ml, rng, kname), make_joinable(ml, rng, kname)
         a1r = next(s1.connected_atoms(ap1)); a2r = next(s2.connected_atoms(ap2))
@@ -531,10 +532,14 @@ def apply_multi(ml, rng, kname, route):
         ch = None
         if kname == "Molecule":
             ch = np.array([s.atomic_charges[i] for s, ap in ((s1, ap1), (s2, ap2)) for i, a in enumerate(s.atoms) if a is not ap])
-        res = cls.join(s1, s2, ap1, ap2)
         v = VSrc(kname, atoms, bonds, None, ch, None, None, None, [s1, s2])
         v.new_bond_ends = (a1r, a2r)
-        return [Unit(s1), Unit(s2)], v, Unit(res)
+        probe = Bond(a1r, a2r)
+        v.new_bond_payload = [leaf_key(getattr(probe, f)) for f in BOND_FIELDS]
+        units = [Unit(s1), Unit(s2)]
+        pre(units, v)
+        res = cls.join(s1, s2, ap1, ap2)
+        return units, v, Unit(res)
     if route[0] == "ensfromlist":
         if kname == "Conformer":
             e = make_source(ml, rng, "ConformerEnsemble")
@@ -546,10 +551,12 @@ def apply_multi(ml, rng, kname, route):
                 mc = ml.Molecule(m0)
                 mc.coords = m0.coords + (c + 1)
                 srcs.append(mc)
-        res = ml.ConformerEnsemble(list(srcs))
         u0 = Unit(srcs[0])
         v = VSrc(kname, list(srcs[0].atoms), list(srcs[0].bonds), None, None, None, srcs[0].attrib, u0.scal(), srcs)
-        return [Unit(s) for s in srcs], v, Unit(res)
+        units = [Unit(s) for s in srcs]
+        pre(units, v)
+        res = ml.ConformerEnsemble(list(srcs))
+        return units, v, Unit(res)
     raise AssertionError(route)
 
 
@@ -962,24 +969,31 @@ def run_case(ml, rng, kname, route, mut_side, want_mut=None, emit=True):
     it = Intern()
     enc = Enc(it)
     multi = route[0] in ("concat", "join", "ensfromlist")
-    # ---- sources and copy
+    # ---- sources (observed and encoded BEFORE the route runs) and copy
+    st = {}
+
+    def pre(units, v):
+        st["before"] = [raw_obs(u) for u in units]
+        if emit:
+            for u in units:
+                enc.reg_unit(u)
+            enc.read_all()
+            st["root"] = encode_union(enc, v) if v is not None else enc.loc[("o", id(units[0].read), units[0].kname)]
+            st["h0"] = enc.read_all()
     if multi:
-        srcus, v, resu = apply_multi(ml, rng, kname, route)
-        before = None
+        srcus, v, resu = apply_multi(ml, rng, kname, route, pre)
     else:
         src = make_source(ml, rng, kname)
-        pre = Unit(src, route[0] in ("pickle", "deepcopy") and kname == "Conformer")
-        before = raw_obs(pre)
-        if emit:
-            enc.reg_unit(pre)
-            h0_pre = enc.read_all()
+        pre([Unit(src, route[0] in ("pickle", "deepcopy") and kname == "Conformer")], None)
         srcu, resu = apply_single(ml, src, route)
         srcus, v = [srcu], None
+    before = st["before"]
     need = need_of(kname, route)
     # ---- oracle 1: the copy itself
-    if before is not None and raw_obs(srcus[0]) != before:
-        out.violations.append((tag + ":alters-source", f"{route_name(route)} of a {kname} changed the source: "
-                               f"fields {diff_fields(before, raw_obs(srcus[0]))}"))
+    for su, b4 in zip(srcus, before):
+        if raw_obs(su) != b4:
+            out.violations.append((tag + ":alters-source", f"{route_name(route)} of a {kname} changed a source: "
+                                   f"fields {diff_fields(b4, raw_obs(su))}"))
     ro_res = raw_obs(resu)
     if multi:
         judge_derived(out, tag, kname, route, srcus, v, resu, ro_res, need)
@@ -998,14 +1012,7 @@ def run_case(ml, rng, kname, route, mut_side, want_mut=None, emit=True):
             out.violations.append((f"{tag}:shares-{k}", f"{route_name(route)} of a {kname}: the result shares its {k} container(s) with a source"))
     # ---- heap encoding of the copy (tie H)
     if emit:
-        if multi:
-            for su in srcus:
-                enc.reg_unit(su)
-            enc.read_all()
-            root = encode_union(enc, v)
-        else:
-            root = enc.loc[("o", id(srcus[0].read), srcus[0].kname)]
-        h0 = enc.read_all()
+        root, h0 = st["root"], st["h0"]
         base = len(h0)
         n = len(v.atoms) if multi else len(srcus[0].atoms_list())
         sb = (v.bonds if multi else srcus[0].bonds_list())
@@ -1020,7 +1027,8 @@ def run_case(ml, rng, kname, route, mut_side, want_mut=None, emit=True):
     # ---- mutation
     units = list(srcus) + [resu]
     mu = resu if mut_side == "copy" else rng.choice(srcus)
-    others = [u for u in units if u is not mu and u.read is not mu.read]
+    # the property relates a result and its sources (sources may share among themselves, e.g. conformers of one ensemble)
+    others = list(srcus) if mu is resu else [resu]
     menu = mutations_for(mu)
     mut = want_mut if (want_mut in menu) else rng.choice(menu)
     snap = [raw_obs(u) for u in others]
@@ -1037,11 +1045,6 @@ def run_case(ml, rng, kname, route, mut_side, want_mut=None, emit=True):
         prims = [f"(PAlloc CFree)" for _ in range(len(h1), len(h2))]
         prims += [f"(PWrite {l} {c})" for l, c in enumerate(h2) if l >= len(h1) or c != h1[l]]
         w2 = [(enc.loc[("o", id(u.read), u.kname)], raw_obs(u)) for u in watch_units]
-        gv = resu
-
-        def garr(nm):
-            a = gv.arr(nm)
-            return "[]" if a is None else enc.zs(flat(a))
         # `given` is read from the h1 snapshot, i.e. before the mutation -- recompute from w1
         ro1 = w1[-1][1]
         given = (f"(mk_given {enc.zs(ro1['scal'])} {enc.zs(ro1['coords'] or [])} {enc.zs(ro1['charges'] or [])} "
@@ -1115,7 +1118,6 @@ def judge_derived(out, tag, kname, route, srcus, v, resu, ro_res, need):
     got_b = [(i, j, p, d) for i, j, p, d, _ in (ro_res["bonds"] or [])]
     if hasattr(v, "new_bond_ends"):
         nb = got_b[-1] if len(got_b) == len(want_b) + 1 else None
-        v.new_bond_payload = nb[2] if nb else []
         if nb is None or {nb[0], nb[1]} != {idx[id(v.new_bond_ends[0])], idx[id(v.new_bond_ends[1])]}:
             out.violations.append((f"{tag}:new-bond-wrong", f"{rn}: the bond created by join does not connect the two anchor atoms"))
         got_b = got_b[:-1] if nb else got_b
@@ -1133,7 +1135,11 @@ def judge_derived(out, tag, kname, route, srcus, v, resu, ro_res, need):
     if route[0] == "concat":
         r = resu.read
         if type(r.charge) is not int or type(r.mult) is not int:
-            out.violations.append((KNOWN_CONCAT_SCAL, f"{rn}: charge/mult of the result are {type(r.charge).__name__}/{type(r.mult).__name__}, not int"))
+            out.violations.append((f"{tag}:charge-mult-not-int", f"{rn}: charge/mult of the result are {type(r.charge).__name__}/{type(r.mult).__name__}, not int"))
+        srcs = [u.read for u in srcus]
+        if r.charge != sum(s.charge for s in srcs) or r.mult != sum(s.mult - 1 for s in srcs) + 1:
+            out.violations.append((f"{tag}:charge-mult-wrong", f"{rn}: charge/mult {r.charge}/{r.mult} of the result do not add up from the sources "
+                                   f"{[(s.charge, s.mult) for s in srcs]}"))
 
 
 # ------------------------------------------------------------------ the plan of cases
